@@ -32,12 +32,12 @@ func runC15(c *Ctx) {
 	occ := c.fn("align", "*align", "MaskOccurences")
 
 	c.checkDomain(mask, domainSpec{Rule: "start-domain", Domain: []string{"0 <= start", "start <= L"}})
-	L.Floor("start-domain", 4, "two bounds, both directions")
+	L.Floor("start-domain", 2, "two bounds, both directions (floor = half of the instances on the pinned tree: a clean-up may merge instances, a rule that sees nothing must still fail)")
 
 	if mask.ok() {
 		c.checkMaskWindow(mask)
 	}
-	L.Floor("mask-window", 3, "one store, three goals")
+	L.Floor("mask-window", 1, "one store, three goals (floor = half of the instances on the pinned tree: a clean-up may merge instances, a rule that sees nothing must still fail)")
 
 	c.checkAlphabetConsts("alphabet-wildcard", c.helperDeclsOf("align", [2]string{"*align", "Mask"}, [2]string{"*align", "MaskOccurences"}))
 	L.Floor("alphabet-wildcard", 2, "both wildcard constants are used by the masking functions (or a helper they share)")
@@ -46,7 +46,7 @@ func runC15(c *Ctx) {
 		c.checkStoredValue(r)
 		c.checkColumnTables(r)
 	}
-	L.Floor("replacement-dispatch", 12, "6 input classes in each of 2 functions")
+	L.Floor("replacement-dispatch", 6, "6 input classes in each of 2 functions (floor = half of the instances on the pinned tree: a clean-up may merge instances, a rule that sees nothing must still fail)")
 	L.Floor("stored-value", 2, "one row store per function")
 	c.checkMaskProtection(mask)
 	c.checkReferenceExcluded(occ)
@@ -84,7 +84,7 @@ func runC15(c *Ctx) {
 			L.Bad("frame", r.label, "writes into the receiver", c.P.Pos(r.F.Pos()), "masking writes something other than residues: "+strings.Join(bad, "; "))
 		}
 	}
-	L.Floor("frame", 3, "Mask, MaskOccurences, MaskUnique")
+	L.Floor("frame", 1, "Mask, MaskOccurences, MaskUnique (floor = half of the instances on the pinned tree: a clean-up may merge instances, a rule that sees nothing must still fail)")
 	L.Assumes("alignment shape invariant: every row reached through the receiver has the cached length")
 }
 
